@@ -16,8 +16,8 @@ RULE = ("real client pair + real mailbox server on SimNet; server `message` resp
         "duplicate or effective drop happened; distinct = distinct scheduler decision traces.")
 ASSUMPTIONS = ["SimNet mirrors twisted tcp transport semantics (vt selftest)",
                "payloads carry a unique id so a delivery identifies its send"]
-FLOORS = {"quick": {"delivered": 200, "adv_out_of_order": 50, "adv_dups": 20, "drops": 20, "dilate_records_rx": 150},
-          "thorough": {"delivered": 2000, "adv_out_of_order": 500, "adv_dups": 200, "drops": 200, "dilate_records_rx": 5000}}
+FLOORS = {"quick": {"delivered": 200, "adv_out_of_order": 50, "adv_dups": 20, "drops": 20, "dilate_records_rx": 150, "gets_given_up": 60},
+          "thorough": {"delivered": 2000, "adv_out_of_order": 500, "adv_dups": 200, "drops": 200, "dilate_records_rx": 5000, "gets_given_up": 2000}}
 
 
 def cases(tier, seed, prep=None):
@@ -29,6 +29,11 @@ def cases(tier, seed, prep=None):
     # mailbox and the reordering server with the application's numbered phases
     for i in range(80 if tier == "quick" else 2500):
         out.append({"kind": "random", "seed": seed * 1000003 + 40000 + i, "dilate": True, "min_msgs": 2, "ndrops": [0, 0, 1]})
+    # an application that gives up waiting now and then (get_message().addTimeout(...), i.e. Deferred.cancel()) and asks again later
+    for i in range(80 if tier == "quick" else 2500):
+        who = "ab"[i % 2]
+        out.append({"kind": "random", "seed": seed * 1000003 + 60000 + i, "min_msgs": 3, "ndrops": [0, 0, 1],
+                    "cfg_over": {"api_" + who: "deferred", "get_" + who: "lazy", "cancel_gets_" + who: 1 + i % 3}})
     bases = range(3) if tier == "quick" else range(24)
     stride = 4 if tier == "quick" else 1
     for b in bases:
@@ -93,7 +98,7 @@ def run_case(spec):
         "counters": {"delivered": delivered, "adv_out_of_order": adv.out_of_order, "adv_dups": adv.dups,
                      "drops": drv.drops_done, "drops_skipped": drv.drops_skipped, **{"drop_" + k: v for k, v in drv.drop_kinds.items()},
                      "complete": int(drv.all_delivered()), "steps": world.step,
-                     "kind_" + spec["kind"]: 1, "dilate_calls": dilated[0],
+                     "kind_" + spec["kind"]: 1, "dilate_calls": dilated[0], "gets_given_up": getattr(drv.a, "cancelled_gets", 0) + getattr(drv.b, "cancelled_gets", 0),
                      "dilate_records_rx": sum(1 for app in (drv.a, drv.b) for (_, m) in app.inbound
                                               if m.get("type") == "message" and str(m.get("phase", "")).startswith("dilate-")),
                      "notrans_seen": len(MON.notrans), "log_errors_seen": len(MON.errors)},
